@@ -510,6 +510,8 @@ def box(v: V, kind: Kind):
             return v.t
         raise Unsupported(f"box: {v.kind!r} as {kind!r}")
     if isinstance(kind, KList):
+        if hasattr(v, "to_seq"):
+            return v.to_seq(kind)
         if isinstance(v, ListV):
             if v.elem == kind.elem:
                 return v.t
